@@ -421,6 +421,193 @@ func c06Run(c *core.Ctx) {
 		}
 	}
 
+	// ---------------- line selection (line_index / line_pattern) in envelopes / records of 1..5 lines ----------------
+	{
+		type selcol struct {
+			idx int    // line_index (0 = none)
+			pat string // line_pattern ("" = none)
+		}
+		cols := []selcol{{0, ""}, {1, ""}, {2, ""}, {3, ""}, {0, "^D"}, {0, "E$"}, {0, "^Z"}, {0, "^B"}}
+		// the value of a column on an instance: taken from the first line the column selects
+		model := func(lines []string, value func(line string) string) []*string {
+			var row []*string
+			for _, cdef := range cols {
+				var v *string
+				for i, l := range lines {
+					if cdef.idx != 0 && cdef.idx != i+1 {
+						continue
+					}
+					if cdef.pat != "" {
+						ok := false
+						switch cdef.pat {
+						case "^D":
+							ok = strings.HasPrefix(l, "D")
+						case "E$":
+							ok = strings.HasSuffix(l, "E")
+						case "^Z":
+							ok = strings.HasPrefix(l, "Z")
+						case "^B":
+							ok = strings.HasPrefix(l, "B")
+						}
+						if !ok {
+							continue
+						}
+					}
+					v = sp(value(l))
+					break
+				}
+				row = append(row, v)
+			}
+			return row
+		}
+		var outs []string
+		for i := range cols {
+			outs = append(outs, fmt.Sprintf(`"c%d":{"xpath":"k%d","no_trim":true,"keep_empty_or_null":true}`, i+1, i+1))
+		}
+		fo := `"transform_declarations":{"FINAL_OUTPUT":{"object":{` + strings.Join(outs, ",") + `}}}`
+		for _, format := range []string{"fixedlength2", "csv2"} {
+			var cd []string
+			for i, cdef := range cols {
+				sel := ""
+				if cdef.idx != 0 {
+					sel = fmt.Sprintf(`,"line_index":%d`, cdef.idx)
+				}
+				if cdef.pat != "" {
+					sel = `,"line_pattern":` + jq(cdef.pat)
+				}
+				if format == "fixedlength2" {
+					cd = append(cd, fmt.Sprintf(`{"name":"k%d","start_pos":2,"length":2%s}`, i+1, sel))
+				} else {
+					cd = append(cd, fmt.Sprintf(`{"name":"k%d","index":2%s}`, i+1, sel))
+				}
+			}
+			line := func(l string) string { // l = tag + two value characters + optional E
+				if format == "csv2" {
+					return l[:1] + "|" + l[1:3] + "|" + l[3:]
+				}
+				return l
+			}
+			value := func(l string) string { return l[1:3] }
+			unit, list := "envelopes", "envelopes"
+			if format == "csv2" {
+				unit, list = "records", "records"
+			}
+			_ = unit
+			delim := ""
+			if format == "csv2" {
+				delim = `"delimiter":"|",`
+			}
+			// csv2 lines look like "B|11|E": the footer pattern E$ still applies to the joined line text
+			// rows-based: every instance has exactly n lines
+			pool := []string{"B11", "D22", "X33E", "D44", "B55E", "Z66", "D77E"}
+			for n := 1; n <= 3; n++ {
+				st := `{` + hdr(format) + `,"file_declaration":{` + delim + `"` + list + `":[{"name":"R","rows":` + fmt.Sprint(n) + `,"columns":[` + strings.Join(cd, ",") + `]}]},` + fo + `}`
+				sc, err, _ := hx.NewSchema("s", st)
+				if err != nil {
+					c.HarnessError("line-selection schema rejected: " + err.Error())
+					continue
+				}
+				gen.Sequences(len(pool), n, func(seq []int) bool {
+					if len(seq) != n {
+						return true
+					}
+					var in strings.Builder
+					var want [][]*string
+					// two instances: the chosen lines, then the same lines rotated
+					for rot := 0; rot < 2; rot++ {
+						var lines []string
+						for i := range seq {
+							lines = append(lines, pool[seq[(i+rot)%n]])
+						}
+						for _, l := range lines {
+							in.WriteString(line(l) + "\n")
+						}
+						want = append(want, model(lines, value))
+					}
+					return emit(c06Case{Family: fmt.Sprintf("%s|line selection, rows:%d", format, n), Schema: st, Input: []byte(in.String()), Want: want}, sc, format+"-linesel-rows")
+				})
+			}
+			// header/footer: instances of 1..5 lines (the one-line instance is header and footer at once)
+			st := `{` + hdr(format) + `,"file_declaration":{` + delim + `"` + list + `":[{"name":"R","header":"^B","footer":"E$","columns":[` + strings.Join(cd, ",") + `]}]},` + fo + `}`
+			sc, err, _ := hx.NewSchema("s", st)
+			if err != nil {
+				c.HarnessError("line-selection schema rejected: " + err.Error())
+				continue
+			}
+			insts := [][]string{{"B11E"}, {"B11", "D22E"}, {"B11", "X22E"}, {"B11", "D22", "X33E"}, {"B11", "X22", "D33", "D44", "Z55E"}, {"B11", "Z22", "B33", "D44E"}}
+			for i := range insts {
+				for j := range insts {
+					for k := range insts {
+						var in strings.Builder
+						var want [][]*string
+						for _, x := range []int{i, j, k} {
+							for _, l := range insts[x] {
+								in.WriteString(line(l) + "\n")
+							}
+							want = append(want, model(insts[x], value))
+						}
+						if !emit(c06Case{Family: format + "|line selection, header/footer instances of 1-5 lines", Schema: st, Input: []byte(in.String()), Want: want}, sc, format+"-linesel-hf") {
+							return
+						}
+					}
+				}
+			}
+		}
+	}
+
+	// ---------------- buffered look-ahead that fails, then the buffered lines are consumed piecemeal ----------------
+	// A header/footer block that is opened but never closed before the end of the input (all remaining
+	// lines get buffered), or a rows:N record tried with fewer than N lines left, followed by a
+	// one-line target record that takes the buffered lines one at a time.
+	for _, format := range []string{"csv2", "fixedlength2"} {
+		for _, first := range []string{`"header":"^B","footer":"^E"`, `"rows":4`, `"rows":7`} {
+			var st string
+			if format == "csv2" {
+				st = `{` + hdr("csv2") + `,"file_declaration":{"delimiter":"|","records":[{"name":"BLK","min":0,"max":-1,` + first + `},{"name":"R","is_target":true,"min":0,"max":-1,"columns":[{"name":"k1","index":1},{"name":"k2","index":2}]}]},"transform_declarations":{"FINAL_OUTPUT":{"object":{"c1":{"xpath":"k1","no_trim":true,"keep_empty_or_null":true},"c2":{"xpath":"k2","no_trim":true,"keep_empty_or_null":true}}}}}`
+			} else {
+				st = `{` + hdr("fixedlength2") + `,"file_declaration":{"envelopes":[{"name":"BLK","min":0,"max":-1,` + first + `},{"name":"R","is_target":true,"min":0,"max":-1,"columns":[{"name":"k1","start_pos":1,"length":2},{"name":"k2","start_pos":4,"length":3}]}]},"transform_declarations":{"FINAL_OUTPUT":{"object":{"c1":{"xpath":"k1","no_trim":true,"keep_empty_or_null":true},"c2":{"xpath":"k2","no_trim":true,"keep_empty_or_null":true}}}}}`
+			}
+			sc, err, _ := hx.NewSchema("s", st)
+			if err != nil {
+				c.HarnessError("look-ahead schema rejected: " + err.Error())
+				continue
+			}
+			for complete := 0; complete <= 1; complete++ {
+				for k := 0; k <= 9; k++ {
+					var in strings.Builder
+					var want [][]*string
+					blockLen := 0
+					if strings.Contains(first, "rows") {
+						fmt.Sscanf(first[strings.Index(first, ":")+1:], "%d", &blockLen)
+					}
+					if complete == 1 {
+						if blockLen == 0 {
+							in.WriteString("B0|blk\nxx|in1\nE0|blk\n")
+						} else {
+							for i := 0; i < blockLen; i++ {
+								fmt.Fprintf(&in, "b%d|blk\n", i)
+							}
+						}
+					}
+					// the unfinished block: an opening line and k more lines, none closing it / fewer than N in all
+					n := k + 1
+					if blockLen != 0 && n >= blockLen {
+						continue
+					}
+					for i := 0; i < n; i++ {
+						tag := fmt.Sprintf("%c%d", 'B'+byte(i%3)*2, i) // B0 D1 F2 B3 ... (never starts with E)
+						val := fmt.Sprintf("v%02d", i)
+						in.WriteString(tag + "|" + val + "\n")
+						want = append(want, []*string{sp(tag), sp(val)})
+					}
+					if !emit(c06Case{Family: fmt.Sprintf("%s|failed look-ahead (%s) then %d buffered lines taken one at a time", format, first, n), Schema: st, Input: []byte(in.String()), Want: want}, sc, format+"-lookahead") {
+						return
+					}
+				}
+			}
+		}
+	}
+
 	// ---------------- fixed-length / fixedlength2 ----------------
 	runes := []string{"a", "b", "é", "世", " "}
 	maxLen := 4
